@@ -601,11 +601,13 @@ func sortedMap(m map[string]string) []string {
 // cliExpected: the one-shot specification of the command-line tool, computed with the
 // library's own Compile: the script's statements in order, each query compiled with all
 // previously accepted lets in scope.
-func cliExpected(script string) (out string, fail bool) {
+func cliExpected(script string) (out string, fail bool) { return cliExpectedErr(script, false) }
+
+// cliExpectedErr: the same when reading fails after the script's bytes (readError).
+func cliExpectedErr(script string, readError bool) (out string, fail bool) {
 	// lines as the tool reads them: a read error at a line of 64 KiB or more
 	var text strings.Builder
 	rest := script
-	readError := false
 	for len(rest) > 0 {
 		i := strings.IndexByte(rest, '\n')
 		line := rest
@@ -659,7 +661,7 @@ func cliExpected(script string) (out string, fail bool) {
 func oracleC16(f []string) string {
 	got := showCli(f)
 	script := unhx(f[0])
-	out, fail := cliExpected(script)
+	out, fail := cliExpectedErr(script, len(f) > 1 && f[1] == "filedir")
 	want := fmt.Sprintf("%d %s", map[bool]int{false: 0, true: 1}[fail], hx(out))
 	if got != want {
 		if strings.HasPrefix(got, "0 ") || strings.HasPrefix(got, "1 ") {
